@@ -28,6 +28,7 @@ func init() {
 			{"C06.index-row", "ChunkStream records size and id of the same bytes it stores", 2, c06IndexRow},
 			{"C06.chunk-buffer-ownership", "the chunker never reuses a buffer whose sub-slices were handed out", 1, c06BufferOwnership},
 			{"C06.store-writes", "the local store publishes a chunk only after its converted data was written completely (shared with C08/C20)", 4, func(c *Ctx) { c08Typestate(c); c20WriteFormat(c) }},
+			{"C06.backend-writes", "every back end's StoreChunk reports success only after its write primitives completed", 8, func(c *Ctx) { c.writePrimitives("C06") }},
 			{"C06.errors-not-dropped", "no error of the operations this property depends on is dropped", 1, func(c *Ctx) { c.errorsNotDropped("C06") }},
 		},
 	})
